@@ -30,6 +30,9 @@ META = {
 }
 
 
+ZERO_LOST = []
+
+
 def optional_numeric_params(an, cls):
     """constructor parameters annotated Optional[int|float|Union[int,float]] stored as self.<attr>"""
     init = cls.methods.get("__init__")
@@ -49,6 +52,13 @@ def optional_numeric_params(an, cls):
                     for tg in x.targets:
                         if isinstance(tg, ast.Attribute) and isinstance(tg.value, ast.Name) and tg.value.id == init.self_name:
                             out[tg.attr] = a.arg
+                # `self.bound = bound or <default>`: a bound of 0 is falsy and silently becomes the default
+                if isinstance(x, ast.Assign) and isinstance(x.value, ast.BoolOp) and isinstance(x.value.op, ast.Or) \
+                        and isinstance(x.value.values[0], ast.Name) and x.value.values[0].id == a.arg:
+                    for tg in x.targets:
+                        if isinstance(tg, ast.Attribute) and isinstance(tg.value, ast.Name) and tg.value.id == init.self_name:
+                            out[tg.attr] = a.arg
+                            ZERO_LOST.append((init, x, tg.attr, a.arg))
     return out
 
 
@@ -148,7 +158,16 @@ def check_bounds(ctx):
                            "truthiness guard accepted: a lower bound of 0 on the non-negative quantity %s is vacuous" % ast.unparse(q) if vac else
                            "`if self.%s and ...` skips the check when the bound is 0: %s(%s=0) accepts every value" % (attr, c.name, bounds[attr]),
                            node=t)
-    ctx.need(ninst >= 6, "fewer than 6 bound comparisons discovered (%d)" % ninst)
+    seen_z = set()
+    for init, x, attr, arg in ZERO_LOST:
+        if id(x) in seen_z:
+            continue
+        seen_z.add(id(x))
+        ctx.ob("bound.none-guard", init, x, False,
+               "`%s`: a bound of 0 is falsy and is replaced by the default when the field is built: %s(%s=0) does not enforce 0" % (
+                   ast.unparse(x)[:60], init.cls.name if init.cls else "?", arg))
+    del ZERO_LOST[:]
+    ctx.need(ninst >= 3, "fewer than 3 bound comparisons discovered (%d)" % ninst)
     # PortField defaults
     pf = model.cls("PortField").methods.get("__init__")
     ctx.need(pf is not None, "PortField.__init__ vanished")
@@ -277,32 +296,134 @@ def check_bytes_codec(ctx):
     inverse = {"b64encode": "b64decode", "hex": "fromhex", "b32encode": "b32decode", "b16encode": "b16decode",
                "hexlify": "unhexlify", "urlsafe_b64encode": "urlsafe_b64decode", "standard_b64encode": "standard_b64decode",
                "b85encode": "b85decode", "a85encode": "a85decode"}
+    # per encoding literal: the function specialised for `self.encoding == <literal>`; the codec calls on the feasible paths
+    # (also behind a module-level dispatch table indexed by self.encoding) are that encoding's codec
+    from engine.specialize import Spec
+    CODEC_NAMES = set(inverse) | set(inverse.values())
+
+    def enc_decider(f, lit):
+        def is_enc(e):
+            return isinstance(e, ast.Attribute) and e.attr == "encoding" and isinstance(e.value, ast.Name) and e.value.id == f.self_name
+
+        def const_of(e):
+            try:
+                return model.const_eval(f.module, e, f.cls)
+            except (ValueError, KeyError):
+                return None
+
+        vp_ = f.positional_params[2] if len(f.positional_params) > 2 else None
+
+        def decide(e, node):
+            e2 = expand_aliases(f, e, node)
+            # a value is there and has the type the codec expects (the early exits for None / non-str are not the point here)
+            if isinstance(e2, ast.Compare) and len(e2.ops) == 1 and isinstance(e2.left, ast.Name) and e2.left.id == vp_ \
+                    and isinstance(e2.comparators[0], ast.Constant) and e2.comparators[0].value is None:
+                return isinstance(e2.ops[0], (ast.IsNot, ast.NotEq))
+            if isinstance(e2, ast.Call) and isinstance(e2.func, ast.Name) and e2.func.id == "isinstance" and len(e2.args) == 2 \
+                    and isinstance(e2.args[0], ast.Name) and e2.args[0].id == vp_:
+                return True
+            if isinstance(e2, ast.Compare) and len(e2.ops) == 1:
+                l, r, op = e2.left, e2.comparators[0], e2.ops[0]
+                if is_enc(r) and not is_enc(l):
+                    l, r = r, l
+                if is_enc(l):
+                    if isinstance(op, (ast.Eq, ast.NotEq)):
+                        c = const_of(r)
+                        if isinstance(c, str):
+                            return (c == lit) if isinstance(op, ast.Eq) else (c != lit)
+                    if isinstance(op, (ast.In, ast.NotIn)):
+                        c = const_of(r)
+                        if isinstance(c, (tuple, list, dict, set, frozenset)):
+                            return (lit in c) if isinstance(op, ast.In) else (lit not in c)
+            return None
+        return decide, is_enc, const_of
+
+    def codecs_in(fn_or_expr):
+        out = set()
+        for x in ast.walk(fn_or_expr):
+            if isinstance(x, ast.Call):
+                nm = ast.unparse(x.func).split(".")[-1]
+                if nm in CODEC_NAMES:
+                    out.add(nm)
+            elif isinstance(x, ast.Attribute) and x.attr in CODEC_NAMES and not isinstance(getattr(x, "_parent", None), ast.Call):
+                out.add(x.attr)
+        return out
+
+    def table_entry_codecs(f, entry_expr):
+        """codec names behind a dispatch-table entry: a function of the package (scan its body), an external callable
+        (base64.b64decode, bytes.fromhex), or a tuple of such"""
+        out = set()
+        els = entry_expr.elts if isinstance(entry_expr, (ast.Tuple, ast.List)) else [entry_expr]
+        for x in els:
+            nm = ast.unparse(x).split(".")[-1] if isinstance(x, (ast.Name, ast.Attribute)) else None
+            if nm in CODEC_NAMES:
+                out.add(nm)
+            elif isinstance(x, ast.Name):
+                r = model.resolve_name(f.module, x.id)
+                if r is not None and r[0] == "func":
+                    out |= codecs_in(r[1].node)
+        return out
     maps = {}
     for name in ("to_basic", "to_python"):
         f = model.method("BytesField", name)
         g = an.cfg(f)
         m = {}
-        for t in g.nodes:
-            if t.kind == "test" and isinstance(t.ast, ast.Compare) and len(t.ast.ops) == 1 and isinstance(t.ast.ops[0], ast.Eq) \
-                    and isinstance(t.ast.left, ast.Attribute) and t.ast.left.attr == "encoding":
-                try:
-                    lit = model.const_eval(f.module, t.ast.comparators[0], f.cls)
-                except ValueError:
+        for lit in list(encodings) + ["<unknown>"]:
+            dec, is_enc, const_of = enc_decider(f, lit)
+            sp = Spec(an, f, dec)
+            names = set()
+            for n in g.nodes:
+                if n not in sp.normal or n.ast is None:
                     continue
-                for s, lbl in t.succ:
-                    if lbl is True:
-                        seen = g.reachable([s], may_raise=lambda n: False, stop=lambda n: n.kind == "test")
-                        names = set()
-                        for n in seen:
-                            if n.kind == "call":
-                                nm = ast.unparse(n.ast.func).split(".")[-1]
-                                if nm in inverse or nm in inverse.values():
-                                    names.add(nm)
-                        m[lit] = names
+                if n.kind == "call":
+                    nm = ast.unparse(n.ast.func).split(".")[-1]
+                    if nm in CODEC_NAMES:
+                        names.add(nm)
+                # TABLE[self.encoding] / TABLE.get(self.encoding)
+                for x in ([n.ast] if isinstance(n.ast, (ast.Subscript, ast.Call)) else []):
+                    tbl, key = None, None
+                    if isinstance(x, ast.Subscript) and isinstance(x.value, ast.Name):
+                        tbl, key = x.value, x.slice
+                    elif isinstance(x, ast.Call) and isinstance(x.func, ast.Attribute) and x.func.attr == "get" and isinstance(x.func.value, ast.Name) and x.args:
+                        tbl, key = x.func.value, x.args[0]
+                    if tbl is None or not is_enc(expand_aliases(f, key, n)):
+                        continue
+                    r = model.resolve_name(f.module, tbl.id)
+                    if r is None or r[0] != "const":
+                        continue
+                    stmts = r[1].assigns.get(r[2]) or []
+                    tnode = getattr(stmts[-1], "value", None) if stmts else None
+                    if isinstance(tnode, ast.Dict):
+                        for k_, v_ in zip(tnode.keys, tnode.values):
+                            if k_ is not None and const_of(k_) == lit:
+                                names |= table_entry_codecs(f, v_)
+            if lit == "<unknown>":
+                rejecting = not sp.normal_returns() and not sp.falls_off() and bool(sp.raises())
+                # a table lookup that misses (`TABLE.get(enc)` is None / `enc not in TABLE`) counts when it leads to the raise:
+                if not rejecting:
+                    # decide membership tests against dispatch tables as "not a member" and `x is None` after .get as None
+                    def dec2(e, node, dec=dec, f=f):
+                        d = dec(e, node)
+                        if d is not None:
+                            return d
+                        e2 = expand_aliases(f, e, node)
+                        if isinstance(e2, ast.Compare) and len(e2.ops) == 1 and is_enc(e2.left) and isinstance(e2.ops[0], (ast.In, ast.NotIn)) \
+                                and isinstance(e2.comparators[0], ast.Name):
+                            return isinstance(e2.ops[0], ast.NotIn)
+                        if isinstance(e2, ast.Compare) and len(e2.ops) == 1 and isinstance(e2.left, ast.Name) and isinstance(e2.comparators[0], ast.Constant) \
+                                and e2.comparators[0].value is None and isinstance(e2.ops[0], (ast.Is, ast.IsNot)):
+                            srcs = value_sources(f, e2.left, node)
+                            if srcs and all(k == "expr" and isinstance(pl, ast.Call) and isinstance(pl.func, ast.Attribute) and pl.func.attr == "get"
+                                            and pl.args and is_enc(pl.args[0]) for k, pl in srcs):
+                                return isinstance(e2.ops[0], ast.Is)
+                        return None
+                    sp2 = Spec(an, f, dec2)
+                    rejecting = not sp2.normal_returns() and not sp2.falls_off() and bool(sp2.raises())
+                ctx.ob("codec.bytes.rejecting", f, "unknown encoding -> raise", rejecting, "an unknown encoding ends in raise" if rejecting else
+                       "BytesField.%s falls through for an unknown encoding" % name)
+            elif names:
+                m[lit] = names
         maps[name] = m
-        last_raise = isinstance(f.node.body[-1], ast.Raise)
-        ctx.ob("codec.bytes.rejecting", f, "unknown encoding -> raise", last_raise, "an unknown encoding ends in raise" if last_raise else
-               "BytesField.%s falls through for an unknown encoding" % name)
     ctx.ob("codec.bytes.table", BF, "ENCODINGS", set(maps["to_basic"]) == set(maps["to_python"]) == set(encodings),
            "both directions dispatch over exactly %s" % (sorted(encodings),) if set(maps["to_basic"]) == set(maps["to_python"]) == set(encodings) else
            "ENCODINGS=%s, to_basic handles %s, to_python handles %s" % (encodings, sorted(maps["to_basic"]), sorted(maps["to_python"])))
